@@ -700,6 +700,10 @@ func ruleC12Selection(c *Ctx) {
 			fitTruth = true
 		case cmp.X == ssa.Value(n) && isMult(cmp.Y) && cmp.Op == token.LSS:
 			fitTruth = false
+		case cmp.Y == ssa.Value(n) && isMult(cmp.X) && cmp.Op == token.LEQ:
+			fitTruth = true
+		case cmp.Y == ssa.Value(n) && isMult(cmp.X) && cmp.Op == token.GTR:
+			fitTruth = false
 		default:
 			matched = false
 		}
